@@ -145,7 +145,7 @@ theorem umadGene_counts (add del : UInt64) (gen : Rand β) (g : α) :
     simp [ev_const, List.filter]
     left; ring
   · simp only [umadGene_law, ev_bind, ev_pure]
-    simp [ev_const, List.filter]
+    simp [ev_const]
     ring
 
 /-- **expected child size** of the whole pass, any generator: `n (1 − d)(1 + a)` -/
